@@ -343,6 +343,100 @@ def n0_consumers(p, JW, a, b, pts, kmax=4):
     return None
 
 
+def _num_der(f, x, h=2.0 ** -18):
+    """4th-order central difference"""
+    return (8 * (f(x + h) - f(x - h)) - (f(x + 2 * h) - f(x - 2 * h))) / (12 * h)
+
+
+def fast_sum(p, QP, JW, spec, u, t):
+    """a summation routine against the explicit sum of its terms (values and first derivatives) -> None or a description.
+    spec: {'route': 'q2d', 'm': m, 'cm0': [...], 'a': [...], 'b': [...]} | {'route': 'qbfs'|'qcon', 'c': [...]} |
+          {'route': 'jacobi', 'c': [...], 'params': [alpha, beta]}"""
+    u = np.asarray(u, dtype=float)
+    t = np.asarray(t, dtype=float)
+    r = spec['route']
+    if r == 'q2d':
+        m = spec['m']
+        a, b, c0 = list(spec.get('a', [])), list(spec.get('b', [])), list(spec.get('cm0', []))
+
+        def explicit(uu, tt):
+            z = np.zeros_like(uu)
+            for n, c in enumerate(c0):
+                z = z + c * p.Qbfs(n, uu)
+            for n, c in enumerate(a):
+                z = z + c * p.Q2d(n, m, uu, tt)
+            for n, c in enumerate(b):
+                z = z + c * p.Q2d(n, -m, uu, tt)
+            return z
+        ams = [()] * (m - 1) + [a]
+        bms = [()] * (m - 1) + [b]
+        z, dr, dt = QP.compute_z_zprime_Q2d(c0 if c0 else None, ams, bms, u, t)
+        want = (explicit(u, t), _num_der(lambda v: explicit(v, t), u), _num_der(lambda v: explicit(u, v), t))
+        what = (f'compute_z_zprime_Q2d(cm0={c0}, cosine m={m} coefficients {a} ({len(a)} radial terms), sine m={m} coefficients {b} '
+                f'({len(b)} radial terms))')
+        names = ('sag', 'radial derivative', 'azimuthal derivative')
+        got = (z, dr, dt)
+    elif r in ('qbfs', 'qcon'):
+        c = list(spec['c'])
+        one = p.Qbfs if r == 'qbfs' else p.Qcon
+
+        def explicit(uu):
+            return sum((ck * one(n, uu) for n, ck in enumerate(c)), np.zeros_like(uu))
+        fn = QP.compute_z_zprime_Qbfs if r == 'qbfs' else QP.compute_z_zprime_Qcon
+        z, dz = fn(c, u, u * u)
+        want = (explicit(u), _num_der(explicit, u))
+        what = f'compute_z_zprime_{"Qbfs" if r == "qbfs" else "Qcon"}({c}) ({len(c)} terms)'
+        names = ('sag', 'radial derivative')
+        got = (z, dz)
+    else:
+        c = list(spec['c'])
+        al, be = spec['params']
+        x = 2 * u - 1
+        want = (sum((ck * p.jacobi(n, al, be, x) for n, ck in enumerate(c)), np.zeros_like(x)),
+                sum((ck * p.jacobi_der(n, al, be, x) for n, ck in enumerate(c)), np.zeros_like(x)))
+        dd = JW.jacobi_sum_clenshaw_der(c, al, be, x, j=1)
+        got = (JW.jacobi_sum_clenshaw(c, al, be, x), dd[1][0])
+        what = f'jacobi_sum_clenshaw(_der)({c}, {al}, {be}) ({len(c)} terms)'
+        names = ('sum', 'first derivative')
+    for nm, g, w in zip(names, got, want):
+        g = np.asarray(g, dtype=float)
+        tol = TOL if nm in ('sag', 'sum') or r == 'jacobi' else 1e-6
+        if g.shape != np.shape(w) or not close(g, w, tol):
+            return (f'{what}: the {nm} {g.tolist()} differs from that of the explicit sum of the single polynomials {np.asarray(w).tolist()} '
+                    f'at u = {u.tolist()}, t = {t.tolist()}')
+    return None
+
+
+def fast_sum_specs(rng, scale):
+    """every (route, cosine/sine, m, number of terms): one-hot vectors for every position of every length 1..7 (so every length on
+    either side of a special-case threshold, for the cosine and the sine coefficients separately), random dense vectors, cosine and
+    sine sums of unequal lengths together, with and without m = 0 terms"""
+    Lmax = 7
+    rnd = lambda L: [float(v) for v in np.round(rng.uniform(0.5, 1.5, L) * 16) / 16]      # noqa: E731
+    specs = []
+    for m in range(1, scale(4, 7) + 1):
+        for L in range(1, Lmax + 1):
+            for side in ('a', 'b'):
+                for j in range(L):
+                    specs.append({'route': 'q2d', 'm': m, side: [0.0] * j + [1.0] + [0.0] * (L - 1 - j)})
+                specs.append({'route': 'q2d', 'm': m, side: rnd(L)})
+        for La in range(0, Lmax + 1):
+            for Lb in range(0, Lmax + 1):
+                if La + Lb and (m <= 2 or (La + 2 * Lb + m) % scale(3, 1) == 0):
+                    specs.append({'route': 'q2d', 'm': m, 'a': rnd(La), 'b': rnd(Lb), 'cm0': rnd((La + Lb) % 4)})
+    for route in ('qbfs', 'qcon'):
+        for L in range(1, Lmax + 1):
+            for j in range(L):
+                specs.append({'route': route, 'c': [0.0] * j + [1.0] + [0.0] * (L - 1 - j)})
+            specs.append({'route': route, 'c': rnd(L)})
+    for (al, be) in [(0.0, 0.0), (-0.5, -0.5), (0.5, -0.5), (-0.25, -0.75), (0.0, 4.0), (2.3, -0.9), (1.0, 2.0)][:scale(4, 7)]:
+        for L in range(1, Lmax + 1):
+            for j in range(L):
+                specs.append({'route': 'jacobi', 'params': [al, be], 'c': [0.0] * j + [1.0] + [0.0] * (L - 1 - j)})
+            specs.append({'route': 'jacobi', 'params': [al, be], 'c': rnd(L)})
+    return specs
+
+
 # ------------------------------------------------------------------------------------------------
 def _coverage_predicates(ctx, p, scale):
     rng = ctx.rng
@@ -398,6 +492,18 @@ def _coverage_predicates(ctx, p, scale):
         d = _try(ctx, 'textbook:jacobi-n0-coefficients', case, lambda: n0_consumers(p, JW, a, b, pts))
         if d is not _FAILED and d:
             ctx.pred_fail('textbook:jacobi-n0-coefficients', case, d)
+    # summation routines (Clenshaw) against the explicit sum of the single polynomials, every length / family / position
+    QP = importlib.import_module('prysm.polynomials.qpoly')
+    for spec in fast_sum_specs(rng, scale):
+        u = np.clip(dyadic(rng, 0, 1, (4,)), 5 / 64, 60 / 64)
+        t = dyadic(rng, -3, 3, (4,))
+        case = {'family': 'sum', 'spec': spec, 'points': u.tolist(), 't': t.tolist()}
+        L = max(len(spec.get(q, [])) for q in ('a', 'b', 'c'))
+        ctx.case(f'sum:{spec["route"]}', case, nontrivial=L >= 2,
+                 tag=(f'm{min(spec.get("m", 0), 3)}/' if spec['route'] == 'q2d' else '') + ('cos' if spec.get('a') and not spec.get('b') else 'sin' if spec.get('b') and not spec.get('a') else 'both' if spec.get('a') else 'single') + f'/L{L}')
+        d = _try(ctx, f'sum:{spec["route"]}', case, lambda: fast_sum(p, QP, JW, spec, u, t))
+        if d is not _FAILED and d:
+            ctx.pred_fail(f'sum:{spec["route"]}', case, d)
     # the weight function the library reports for the Jacobi family, against (1-x)^alpha (1+x)^beta
     for (a, b) in JAC_PARAMS + [(0.0, float(m)) for m in range(1, 7)] + [(float(np.round(rng.uniform(-0.9, 3) * 8) / 8), float(np.round(rng.uniform(-0.9, 3) * 8) / 8)) for _ in range(scale(4, 40))]:
         for lay, x in (('1d', np.clip(dyadic(rng, -1, 1, (6,)), -63 / 64, 63 / 64)), ('2d', np.clip(dyadic(rng, -1, 1, (3, 4)), -63 / 64, 63 / 64)),
@@ -1036,6 +1142,12 @@ def replay(inp):
         for f in bad[:3]:
             print(f['detail'][:300])
         return bool(bad)
+    if 'spec' in c:
+        import importlib
+        d = fast_sum(p, importlib.import_module('prysm.polynomials.qpoly'), importlib.import_module('prysm.polynomials.jacobi'),
+                     c['spec'], np.array(c['points'], dtype=float), np.array(c['t'], dtype=float))
+        print(d or 'the summation routine equals the explicit sum on this input')
+        return bool(d)
     if 'ns' in c:
         hist = inp.get('item', '').startswith('history-seq:')
         d = seq_textbook(p, c['family'], tuple(c.get('params', [])), c['ns'], np.array(c['points'], dtype=float), history=hist,
